@@ -98,6 +98,8 @@ class Ctx:
         for o in self.violations:
             if (o['rule'], o['file'], o['function'], o['construct_key']) == (rule, v['file'], function, v['construct_key']):
                 o.setdefault('more_sites', []).append(line)
+                if facts and facts.get('failset') and o.get('facts') is not None and o['facts'].get('failset'):
+                    o['facts']['failset'] += ' ' + facts['failset']
                 return
         self.violations.append(v)
         self.obligations.append({'rule': rule, 'instance': inst, 'status': 'violated', 'detail': what})
@@ -130,6 +132,12 @@ def _match(v, k):
     return norm(k.get('construct_key', '')) == v['construct_key']
 
 
+def _same_failset(v, k):
+    """A finding recorded with the fingerprint of its failing inputs is only recognised while exactly those inputs fail."""
+    fs = (v.get('facts') or {}).get('failset')
+    return not k.get('failset') or fs is None or fs == k['failset']
+
+
 def finish(ctx, explanation, trusted=()):
     """Print the report, write evidence, return the exit code."""
     known = load_known()
@@ -143,6 +151,11 @@ def finish(ctx, explanation, trusted=()):
         hit = None
         for i, k in enumerate(kfs):
             if _match(v, k):
+                if not _same_failset(v, k):
+                    v['what_fails'] += '  [this construct is a recorded finding (%s), but the set of failing inputs changed: recorded %s, now %s]' \
+                        % (k.get('id', '?'), k['failset'], v['facts']['failset'])
+                    seen_known.add(i)
+                    break
                 hit = (i, k)
                 break
         if hit:
